@@ -1253,6 +1253,7 @@ def _specialise_round(trees):
                         e_ = ast.IfExp(test=x.test, body=x.body[0].value, orelse=e_)
                     body = [ast.copy_location(ast.Return(value=ast.copy_location(e_, body[-1])), body[-1])]
                     ast.fix_missing_locations(body[0])
+                    body[0].value._sa_from_guards = True
                 if len(body) == 1 and isinstance(body[0], ast.Return) and body[0].value is not None and deco in ([], ['staticmethod']) \
                         and not (b.args.vararg or b.args.kwarg or b.args.kwonlyargs) and all(isinstance(d_, ast.Constant) for d_ in b.args.defaults) \
                         and not any(isinstance(x, (ast.Lambda, ast.Yield, ast.Await, ast.NamedExpr)) for x in ast.walk(body[0].value)):
@@ -1299,6 +1300,8 @@ def _specialise_round(trees):
                     ast.copy_location(x, n)
                 holder = ast.Expr(value=e)
                 _fold_constants(holder)
+                if getattr(expr, '_sa_from_guards', False) and isinstance(holder.value, ast.IfExp):
+                    return n        # the guards were not decided by the arguments: the helper stays a helper (the rules read it as one)
                 return holder.value
         def propagate_constant_locals(t):
             """a local bound exactly once, to a constant (what is left of `type_filter = Environment._as_type_filter(None)`), is that constant"""
